@@ -13,6 +13,13 @@ def errAt {α} (loc : Loc) (l : Leaf) (σ : State) : Res α := .err (Err.at loc 
 
 def crashHeap {α} (σ : State) : Res α := .crash c!"heap" σ
 
+/-- `validate_args` as a step of the evaluator -/
+def validateArgsRes (fuel : Nat) (args : List Expr) (σ : State) : Res Unit :=
+  match validateArgs fuel args [] with
+  | none => .timeout
+  | some (some e) => .err e σ
+  | some none => .ok () σ
+
 /-- `bind_next_name` (no recursion into the evaluator) -/
 def bindNextName (fuel : Nat) (σ : State) (sc : List Addr) (names : List (List Char)) (name : List Char) (loc : Loc)
     (rhs : SVal) (op : Option (BinaryOp × Loc)) (decl : Bool) : Res (List (List Char)) :=
@@ -320,18 +327,14 @@ def interpolate (fuel : Nat) (σ : State) (sc : List Addr) (s : List Char) (slot
       | .timeout => .timeout
       | .err _ => .err (.atLoc loc.1 slotCol (.leaf (Leaf.InterpolateStringParseFailed c!"<parse error>"))) σ
       | .ok ast =>
-        match evalExpr n σ sc ast with
-        | .err e σ1 => .err (.atLoc loc.1 slotCol e) σ1
-        | .crash w σ1 => .crash w σ1
-        | .timeout => .timeout
-        | .ok v σ1 =>
-          match v.v with
-          | .str bs =>
-            match utf8Decode bs with
-            | .ok cs => interpolate n σ1 sc s r loc stop (acc1 ++ cs)
-            | .error er =>
-              .err (.atLoc loc.1 slotCol (.leaf (Leaf.StringConstructionFailed er.msg c!"interpolated slot"))) σ1
-          | w => .err (.atLoc loc.1 slotCol (.leaf (Leaf.InterpolatedValueNotString w.kind))) σ1
+        ((evalExpr n σ sc ast).mapErr (Err.atLoc loc.1 slotCol)).bind fun v σ1 =>
+        match v.v with
+        | .str bs =>
+          match utf8Decode bs with
+          | .ok cs => interpolate n σ1 sc s r loc stop (acc1 ++ cs)
+          | .error er =>
+            .err (.atLoc loc.1 slotCol (.leaf (Leaf.StringConstructionFailed er.msg c!"interpolated slot"))) σ1
+        | w => .err (.atLoc loc.1 slotCol (.leaf (Leaf.InterpolatedValueNotString w.kind))) σ1
 
 /-- `eval_stmts`: a fresh scope holding `bindings`, then the statements -/
 def evalBlock (fuel : Nat) (σ : State) (sc : List Addr) (bindings : List (Expr × SVal)) (stmts : List Stmt) : Res Escape :=
@@ -391,12 +394,9 @@ def evalStmt (fuel : Nat) (σ : State) (sc : List Addr) (st : Stmt) : Res Escape
     | .Break l => .ok (.brk l) σ
     | .Continue l => .ok (.cont l) σ
     | .Func name nameLoc args collect stmts =>
-      match validateArgs n args [] with
-      | none => .timeout
-      | some (some e) => .err e σ
-      | some none =>
-        let (a, σ1) := σ.alloc (.func ⟨some name, args, collect, stmts, sc⟩)
-        (bindNextName n σ1 sc [] name nameLoc (SVal.plain (.func a)) none true).bind fun _ σ2 => .ok .none σ2
+      (validateArgsRes n args σ).bind fun _ σ0 =>
+      let (a, σ1) := σ0.alloc (.func ⟨some name, args, collect, stmts, sc⟩)
+      (bindNextName n σ1 sc [] name nameLoc (SVal.plain (.func a)) none true).bind fun _ σ2 => .ok .none σ2
     | .Return l e => (evalExpr n σ sc e).bind fun v σ1 => .ok (.ret v l) σ1
 
 def evalIf (fuel : Nat) (σ : State) (sc : List Addr) (branches : List Branch) (els : Option (List Stmt)) : Res Escape :=
